@@ -53,9 +53,23 @@ def run_instance(inst):
             out["rt_paths"] = [list(p) for p in X.get_condensed_paths(exp_paths)]
         except BaseException as e:
             out["rt_exc"] = type(e).__name__
+        # the values on the node-edges replaced by others (what a flow correction does), then condensed back
+        try:
+            for i, v in enumerate(inst["nodes"]):
+                if inst["nw"][i] != NONE:
+                    a, b = X.get_expanded_edge(v)
+                    X[a][b]["flow"] = inst["nw2"][i]
+            Cg = X.get_condensed_graph()
+            out["cg_nodes"] = sorted(str(v) for v in Cg.nodes())
+            out["cg_edges"] = sorted([str(a), str(b)] for a, b in Cg.edges())
+            out["cg_flow"] = sorted([str(v), int(d["flow"])] for v, d in Cg.nodes(data=True) if "flow" in d)
+        except BaseException as e:
+            out["cg_exc"] = type(e).__name__
     except BaseException as e:
         out["exc"] = type(e).__name__
         out["msg"] = str(e)[:150]
+    for k_, d_ in (("cg_exc", "none"), ("cg_nodes", []), ("cg_edges", []), ("cg_flow", [])):
+        out.setdefault(k_, d_)
     out.setdefault("x_cons_e", [])
     out.setdefault("cons_e_src", [])
     return out
